@@ -412,11 +412,17 @@ impl Execute for ast::Pipeline {
         // Update exit status.
         shell.set_last_exit_status(result.exit_code.into());
 
+        // A compound command that merely groups other commands (brace group, loop, `if`,
+        // `case`) fails only because a command inside it failed while errexit was being
+        // ignored -- any other failure inside has already been acted upon -- and that
+        // neither ends the shell nor fires the ERR trap.
+        let failure_is_its_own = !pipeline_only_groups_commands(self);
+
         // Fire the ERR trap if the pipeline failed in a non-conditional context.
         // We reuse `suppress_errexit` here because bash suppresses the ERR trap in
         // exactly the same contexts it suppresses errexit (conditionals, `!`-prefixed
         // pipelines, etc.).
-        if !result.is_success() && !params.suppress_errexit && !self.bang {
+        if !result.is_success() && !params.suppress_errexit && !self.bang && failure_is_its_own {
             if shell.traps().handles(crate::traps::TrapSignal::Err) {
                 shell
                     .invoke_trap_handler(crate::traps::TrapSignal::Err, &params)
@@ -425,7 +431,7 @@ impl Execute for ast::Pipeline {
         }
 
         // Apply errexit if not suppressed (and not negated)
-        if !params.suppress_errexit && !self.bang {
+        if !params.suppress_errexit && !self.bang && failure_is_its_own {
             shell.apply_errexit_if_enabled(&mut result);
         }
 
@@ -455,6 +461,28 @@ impl Execute for ast::Pipeline {
 
         Ok(result)
     }
+}
+
+/// Returns whether the pipeline is a single compound command whose status can only be
+/// that of a command run inside it: a brace group, a loop, an `if` or a `case`.
+fn pipeline_only_groups_commands(pipeline: &ast::Pipeline) -> bool {
+    if pipeline.seq.len() != 1 {
+        return false;
+    }
+
+    matches!(
+        &pipeline.seq[0],
+        ast::Command::Compound(
+            ast::CompoundCommand::BraceGroup(_)
+                | ast::CompoundCommand::ForClause(_)
+                | ast::CompoundCommand::ArithmeticForClause(_)
+                | ast::CompoundCommand::CaseClause(_)
+                | ast::CompoundCommand::IfClause(_)
+                | ast::CompoundCommand::WhileClause(_)
+                | ast::CompoundCommand::UntilClause(_),
+            _
+        )
+    )
 }
 
 async fn spawn_pipeline_processes(
